@@ -27,6 +27,9 @@ def _explore(src, with_phases):
     def pfunc(e):
         e.event("pfunc", params=dict(holder["params"]))
         may_raise(e, "pfunc")
+        if e.choose(2) == 1:
+            e.event("malformed-probe")
+            return tuple(SV(t, "real") for t in B0[:2])          # a battery model that answers with an incomplete state (no impedance): batt_life fails on it
         return tuple(SV(t, "real") for t in B0)
     def dfunc(e, dt, cur):
         e.event("dfunc", dt=dt, cur=cur, params=dict(holder["params"]), env=dict(e.frames[-1].locals))
@@ -121,6 +124,17 @@ def obligations(run, src):
                 want = (pl.elem(to_z(ph)) if isinstance(pl, Seq) else (pl[0] if isinstance(pl, list) and len(pl) == 1 else None))
                 g = eng.equal(pharg, want) if (pharg is not None and want is not None) else False
                 ob("_solve called for the phase the cycle is at", p, pi, z3.BoolVal(g) if isinstance(g, bool) else g, ["C18"])
+                # 'steady-state current': the solver runs with its own default tolerances and iteration budget (batt_life does not look at the iteration count)
+                import ast as _ast
+                _, fnode = src.method("System", "_solve")
+                names_ = [a_.arg for a_ in fnode.args.args[1:]]; dfl = dict(zip(names_[len(names_) - len(fnode.args.defaults):], fnode.args.defaults))
+                given = dict(zip(names_, s_["args"])); given.update(s_["kw"])
+                okd = True
+                for k_, v_ in given.items():
+                    if k_ in ("phase", "quiet"): continue
+                    try: okd = okd and (k_ in dfl) and (not is_sym(v_)) and v_ == _ast.literal_eval(dfl[k_])
+                    except Exception: okd = False
+                ob("_solve runs with the solver's default tolerances and iteration budget", p, pi, z3.BoolVal(bool(okd)), ["C18"])
             for d_ in dfs:
                 env = d_["env"]
                 last = sol[-1] if sol else None
